@@ -29,6 +29,7 @@ PURE_FOREIGN = [
     r'^std::option::Option::<T>::is_some$',
     r'^std::option::Option::<T>::is_none$',
     r'^std::option::Option::<T>::as_ref$',
+    r'^std::option::Option::<T>::(unwrap|expect|cloned|copied)$',   # read-only (may panic: C03 ledger)
     r'^robust::orient2d$',
     r'^std::cmp::PartialEq::(eq|ne)$',
     r'^std::cmp::PartialOrd::(lt|le|gt|ge|partial_cmp)$',
